@@ -277,6 +277,10 @@ MIRSYM("build_history", ["C01", "C06", "C15", "C07"],
 MIRSYM("build_history_cancelled", ["C10"],
        "the same histories with the cancellation callback answering true from its n-th poll on (n symbolic): build never panics, returns only Ok or BuildCancelled (after a true poll), and whenever it returns Ok the database satisfies the whole post-condition (never success over a half-built forest)",
        _HIST_BOUNDS + "; cancel point any u32", _lazy("e2_build"), site="Writer::build (whole pipeline)", cancel=True)
+MIRSYM("build_history_db_faults", ["C10"],
+       "the same histories with the k-th database write of the build (put / delete / delete_range / cursor delete; k symbolic) failing with MDB_MAP_FULL and having no effect: build never panics and never returns Ok after a failed write; it returns the store error (or Ok with the whole post-condition when no write failed)",
+       _HIST_BOUNDS + "; fault point any u32; single-tree and parity-sided histories", _lazy("e2_build"),
+       site="Writer::build (whole pipeline)", db_faults=True)
 
 PROPS = {}
 
